@@ -1,8 +1,8 @@
 (* C01 - p-entailment (strict mode).  Property theorems only. *)
 From InfOCF Require Import Core Tol PEnt Form Model Spec Exec ThmP ThmTop.
 From InfOCFProps Require Import Ex.
-From InfOCF Require Import PyLib TieCons TieZ TieP TieTop.
-From InfOCFGen Require Import SrcCond SrcCons SrcInf SrcZ SrcP.
+From InfOCF Require Import PyLib TieSolver TieCons TieInf TieP.
+From InfOCFGen Require Import SrcCond SrcCons SrcInf SrcP.
 From Coq Require Import ZArith.
 From Coq Require Import Permutation.
 
